@@ -2502,7 +2502,7 @@ func (r *Runtime) SetMaxCallStackSize(size int) {
 
 // New is an equivalent of the 'new' operator allowing to call it directly from Go.
 func (r *Runtime) New(construct Value, args ...Value) (o *Object, err error) {
-	err = r.try(func() {
+	err = r.runWrapped(func() {
 		o = r.builtin_new(r.toObject(construct), args)
 	})
 	return
